@@ -18,7 +18,7 @@
 (* The next step is judged from the OBSERVED tree, so one divergence does   *)
 (* not hide later ones.                                                     *)
 (***************************************************************************)
-EXTENDS C18
+EXTENDS C18, Params
 
 Obs == ndJsonDeserialize(ObsFile)
 N == Len(Obs)
